@@ -188,7 +188,10 @@ class ProgressivelyTerminalDecider(BaseDecider):
                 return target - self.grammar.get_distance_to_terminal(n)
 
         production_weights = self.grammar.get_weights()
-        weights = [w(alt) * production_weights.get(alt, 1.0) for alt in alternatives]
+        # the heuristic is a preference, never below "none": an alternative that cannot reach a terminal (distance
+        # INF_VALUE) would otherwise weigh about minus a million, and a weighted choice over negative weights falls
+        # through to its first option - a zero-weight production if that is what comes first
+        weights = [max(w(alt), 0) * production_weights.get(alt, 1.0) for alt in alternatives]
         if not any(weights):
             # The depth heuristic ruled every alternative out: fall back to the production weights alone.
             weights = [production_weights.get(alt, 1.0) for alt in alternatives]
